@@ -5,6 +5,7 @@ import (
 	"fmt"
 	webp "github.com/deepteams/webp"
 	"image"
+	"image/color"
 	"math/rand"
 	"time"
 
@@ -231,6 +232,16 @@ func genHistory(r *rand.Rand, maxSide, maxLen int, alphaOnly bool) animHist {
 	}
 	if kmaxScript > 0 {
 		h.Opts.Kmin, h.Opts.Kmax = 1, kmaxScript
+	}
+	// The ANIM background colour is a hint that players ignore (disposal clears to transparent); it must not
+	// influence what plays back. A colour that actually occurs in the pictures is the interesting choice.
+	switch r.Intn(4) {
+	case 0:
+		p := h.Canvases[r.Intn(len(h.Canvases))]
+		o := p.PixOffset(r.Intn(h.CW), r.Intn(h.CH))
+		h.Opts.BackgroundColor = color.NRGBA{p.Pix[o], p.Pix[o+1], p.Pix[o+2], 255}
+	case 1:
+		h.Opts.BackgroundColor = []color.NRGBA{{255, 255, 255, 255}, {0, 0, 0, 255}, {255, 255, 255, 128}, {10, 200, 30, 1}}[r.Intn(4)]
 	}
 	return h
 }
